@@ -10,7 +10,8 @@ modes
   collect {"root": dir, "base": dir, "decls":[…]} -> [{"path": collected path | None, "sig": …}|{"err":…}, …]
   pystate {"values":[jv,…]}                       -> [PythonNode(value=v, hash=True).state(), …]
   pywrap  {"values":[jv,…], "flags":[bool,…]}     -> [{"w": state of the collected dependency, "n": state of the node}, …]
-  build   {"root": dir}                           -> {"exit": int, "outcomes": {task name: outcome name}}
+  build   {"root": dir[, "cwd": dir, "paths": [spelling…]]} -> {"exit": int, "outcomes": {task name: outcome name}}
+  tasksigs {"cwd": dir, "paths": [spelling…]}     -> {"exit": int, "tasks": {task name: {"sig", "path"}}}   (dry run)
 
 jv (JSON value): {"t":"none"} {"t":"bool","v":true} {"t":"int","v":"12"} {"t":"float","v":"0x1.8p+0"}
   {"t":"str","v":[code points]} {"t":"bytes","v":[0-255]} {"t":"path","v":"a/b"} {"t":"tuple","v":[jv…]} {"t":"list","v":[jv…]}
@@ -241,11 +242,23 @@ def mode_collect(req):
     return out
 
 
+def mode_tasksigs(req):
+    """Collect (dry run: nothing executes, nothing is recorded) with the `paths` argument as spelled, from the working directory
+    `cwd`: identity (signature, module path) of every collected task."""
+    import pytask
+    os.chdir(req["cwd"])
+    s = pytask.build(paths=[Path(p) for p in req["paths"]], dry_run=True)
+    tasks = {}
+    for t in s.tasks:
+        tasks[t.name.rsplit("::", 1)[-1]] = {"sig": t.signature, "path": str(getattr(t, "path", None))}
+    return {"exit": int(s.exit_code), "tasks": tasks}
+
+
 def mode_build(req):
     import pytask
     root = Path(req["root"])
-    os.chdir(root)
-    s = pytask.build(paths=[root])
+    os.chdir(req.get("cwd", root))
+    s = pytask.build(paths=[Path(p) for p in req["paths"]] if req.get("paths") else [root])
     outcomes = {}
     for r in s.execution_reports:
         outcomes[r.task.name.rsplit("::", 1)[-1]] = r.outcome.name
@@ -259,7 +272,7 @@ def main():
         res = [str(hash(int(s))) for s in req["ints"]]
     else:
         res = {"pool": mode_pool, "sigs": mode_sigs, "ops": mode_ops, "collect": mode_collect,
-               "pystate": mode_pystate, "build": mode_build, "pywrap": mode_pywrap}[mode](req)
+               "pystate": mode_pystate, "build": mode_build, "pywrap": mode_pywrap, "tasksigs": mode_tasksigs}[mode](req)
     real_stdout = sys.__stdout__
     real_stdout.write("\n@@RESULT@@" + json.dumps(res) + "\n")
 
